@@ -303,6 +303,9 @@ func (i StartSubroutine) String() string {
 }
 
 func (i StartSubroutine) adjust(offset int, state *GenState) SearchInstruction {
+	// the id is the subroutine's own pc: it has to move together with the
+	// call targets (CallSubroutine.ToPC) that are compared against it
+	i.Id += offset
 	i.EndOffset += offset
 	return i
 }
